@@ -3,7 +3,7 @@
 set -e
 cd /verif
 for id in "$@"; do
-  git merge --no-edit w/$id 2>&1 | tail -1
+  git merge --no-edit w/$id 2>&1 | tail -1; if git diff --name-only --diff-filter=U | grep -q .; then echo "MERGE CONFLICT in: $(git diff --name-only --diff-filter=U | tr "\n" " ")"; exit 1; fi
   python3 - "$id" <<'PY'
 import json,sys
 p='/verif/tools/not_applicable.json'; d=json.load(open(p)); d.pop(sys.argv[1],None); json.dump(d,open(p,'w'),indent=1)
